@@ -51,18 +51,17 @@ class Unsupported(Exception):
 # ---------------------------------------------------------------- tables (the trusted mapping)
 
 # primitive readers of encode_decode_utils.hpp: name -> (codec, C type of the value)
+# (the Lean readers / writers are those of Impl/CxxPrims.lean, written from the C++ shifts and masks;
+#  they are NOT the Spec's primitive codecs — agreement is proved in Proofs/CxxPrimsLemmas.lean)
+PRIMS = "CxxPrims."
 PRIM_DEC = {
-    "decode_uint8": ("Codec.u8", "u8"),
-    "decode_int32_le": ("Codec.u32le", "i32"), "decode_int32_be": ("Codec.u32be", "i32"),
-    "decode_int64_le": ("Codec.u64le", "i64"), "decode_int64_be": ("Codec.u64be", "i64"),
-    "decode_double_le": ("Codec.u64le", "f64"), "decode_double_be": ("Codec.u64be", "f64"),
+    "decode_uint8": "u8", "decode_int32_le": "i32", "decode_int32_be": "i32",
+    "decode_int64_le": "i64", "decode_int64_be": "i64", "decode_double_le": "f64", "decode_double_be": "f64",
 }
 # primitive writers: name -> (codec, C type of the value)
 PRIM_ENC = {
-    "encode_uint8": ("Codec.u8", "u8"),
-    "encode_int32_le": ("Codec.u32le", "i32"), "encode_int32_be": ("Codec.u32be", "i32"),
-    "encode_int64_le": ("Codec.u64le", "i64"), "encode_int64_be": ("Codec.u64be", "i64"),
-    "encode_double_le": ("Codec.u64le", "f64"), "encode_double_be": ("Codec.u64be", "f64"),
+    "encode_uint8": "u8", "encode_int32_le": "i32", "encode_int32_be": "i32",
+    "encode_int64_le": "i64", "encode_int64_be": "i64", "encode_double_le": "f64", "encode_double_be": "f64",
 }
 # Lean representation of a C scalar held in a variable: the wire bit pattern
 LEAN_OF = {"u8": "UInt8", "i32": "UInt32", "i64": "UInt64", "f64": "UInt64", "bool": "Bool",
@@ -116,6 +115,36 @@ STRUCTS = {
         fields=[("loops", "vec:loop_blob")]),
 }
 
+# Encoder side: C++ member -> Lean projection of the holder `{0}` (the Lean structures of Format/V2.lean).
+ENC_PROJ = {
+    "track_data_blob": {"sample_rate": "{0}.sampleRate", "samples": "{0}.samples", "key": "{0}.key",
+                        "average_loudness_low": "{0}.lo", "average_loudness_mid": "{0}.mid",
+                        "average_loudness_high": "{0}.hi"},
+    # the Lean value keeps the points as one flat byte list (3 bytes per point)
+    "overview_waveform_point": {"low_value": "{0}.1", "mid_value": "{0}.2.1", "high_value": "{0}.2.2"},
+    "overview_waveform_data_blob": {"samples_per_waveform_point": "{0}.spp",
+                                    "waveform_points": "(Wr.triples {0}.points)",
+                                    "maximum_point": "(Wr.triple {0}.maxPt)"},
+    "beat_grid_marker_blob": {"sample_offset": "{0}.off", "beat_number": "{0}.beatNo",
+                              "number_of_beats": "{0}.nBeats", "unknown_value_1": "{0}.unk"},
+    "beat_data_blob": {"sample_rate": "{0}.sampleRate", "samples": "{0}.samples", "is_beatgrid_set": "{0}.isSet",
+                       "default_beat_grid": "{0}.dflt", "adjusted_beat_grid": "{0}.adj"},
+    "pad_color": {"r": "{0}.r", "g": "{0}.g", "b": "{0}.b", "a": "{0}.a"},
+    "quick_cue_blob": {"label": "{0}.label", "sample_offset": "{0}.off", "color": "{0}.color"},
+    "quick_cues_blob": {"quick_cues": "{0}.cues", "adjusted_main_cue": "{0}.adjMain",
+                        "is_main_cue_adjusted": "{0}.isAdj", "default_main_cue": "{0}.defMain"},
+    "loop_blob": {"label": "{0}.label", "start_sample_offset": "{0}.start", "end_sample_offset": "{0}.stop",
+                  "is_start_set": "{0}.isStart", "is_end_set": "{0}.isEnd", "color": "{0}.color"},
+    "loops_blob": {"loops": "{0}"},
+}
+# Lean type of a C++ struct when it is an *input* of an encoder
+ENC_TY = {"overview_waveform_point": "(UInt8 × UInt8 × UInt8)"}
+
+
+def enc_ty(sname):
+    return ENC_TY.get(sname, STRUCTS[sname]["ty"])
+
+
 # functions to translate, in dependency order
 FUNCS = [
     dict(lean="decodeTrack", file="track_data_blob.cpp", filt="track_data_blob::from_blob", mode="from_blob",
@@ -130,8 +159,21 @@ FUNCS = [
          struct="quick_cues_blob"),
     dict(lean="decodeLoops", file="loops_blob.cpp", filt="loops_blob::from_blob", mode="from_blob",
          struct="loops_blob"),
+    dict(lean="encodeTrack", file="track_data_blob.cpp", filt="track_data_blob::to_blob", mode="to_blob",
+         struct="track_data_blob"),
+    dict(lean="encodeOvw", file="overview_waveform_data_blob.cpp", filt="overview_waveform_data_blob::to_blob",
+         mode="to_blob", struct="overview_waveform_data_blob"),
+    dict(lean="encodeGrid", file="beat_data_blob.cpp", filt="encode_beatgrid", mode="enc_helper",
+         cname="encode_beatgrid", arg="vec:beat_grid_marker_blob"),
+    dict(lean="encodeBeat", file="beat_data_blob.cpp", filt="beat_data_blob::to_blob", mode="to_blob",
+         struct="beat_data_blob"),
+    dict(lean="encodeCues", file="quick_cues_blob.cpp", filt="quick_cues_blob::to_blob", mode="to_blob",
+         struct="quick_cues_blob"),
+    dict(lean="encodeLoops", file="loops_blob.cpp", filt="loops_blob::to_blob", mode="to_blob",
+         struct="loops_blob"),
 ]
 HELPERS = {f["cname"]: f for f in FUNCS if f["mode"] == "helper"}
+ENC_HELPERS = {f["cname"]: f for f in FUNCS if f["mode"] == "enc_helper"}
 
 LEAN_KEYWORDS = {"end", "at", "from", "have", "show", "fun", "do", "let", "in", "if", "then", "else", "match",
                  "with", "open", "local", "instance", "where", "by", "for", "return", "at", "mut", "try", "catch"}
@@ -583,8 +625,8 @@ class Dec:
             if len(cargs) != 1:
                 raise Unsupported("arity of " + f, rhs)
             self.ptr_arg(cargs[0], env, "ptr")
-            codec, vty = PRIM_DEC[f]
-            out.append("let %s ← Cur.rd %s" % (name, codec))
+            vty = PRIM_DEC[f]
+            out.append("let %s ← %s%s" % (name, PRIMS, f))
             if ty == vty:
                 env.vals[path] = Val(name, ty, "bits")
             elif vty == "u8" and ty == "bool":
@@ -998,6 +1040,466 @@ class Dec:
         return res + [head] + ["  " + l for l in out]
 
 
+
+# ---------------------------------------------------------------- encoder translation
+
+class EVal:
+    """term + kind.  kinds: u8 i32 i64 f64 (bit patterns), bool, char (a byte of a std::string),
+    u64 (Nat value), i64v / i32v (Int value), string, bytes, vec:<S>, struct:<S>."""
+    def __init__(self, term, kind):
+        self.term, self.kind = term, kind
+
+
+class Enc:
+    def __init__(self, fn):
+        self.fn = fn
+        self.this = None       # (struct name, Lean holder, Lean name of the extra bytes)
+        self.locals = {}       # C++ name -> EVal
+        self.buf = self.ptr = self.end = None
+        self.size = None
+        self.aux = []          # hoisted loop bodies: (name, parameter, parameter type, lines)
+
+    # ---- lvalues
+    def lv(self, n):
+        n = unwrap(n)
+        k = n.get("kind")
+        if k == "ImplicitCastExpr" and n.get("castKind") in ("NoOp", "DerivedToBase"):
+            return self.lv(kids(n)[0])
+        if k == "DeclRefExpr":
+            name = n["referencedDecl"]["name"]
+            if name in self.locals:
+                return self.locals[name]
+            raise Unsupported("unknown variable " + name, n)
+        if k == "MemberExpr":
+            base = unwrap(kids(n)[0])
+            fname = n.get("name")
+            if base.get("kind") == "CXXThisExpr":
+                if not self.this:
+                    raise Unsupported("`this` outside a member function", n)
+                sname, holder, extra = self.this
+                if fname == STRUCTS[sname].get("extra"):
+                    if ctype(n) != "bytes":
+                        raise Unsupported("type of " + fname, n)
+                    return EVal(extra, "bytes")
+            elif n.get("isArrow"):
+                raise Unsupported("-> on something other than this", n)
+            else:
+                b = self.lv(base)
+                if not b.kind.startswith("struct:"):
+                    raise Unsupported("member of a " + b.kind, n)
+                sname, holder = b.kind[7:], b.term
+            kinds = dict(STRUCTS[sname]["fields"])
+            if fname not in kinds or fname not in ENC_PROJ.get(sname, {}):
+                raise Unsupported("unknown member %s of %s" % (fname, sname), n)
+            if ctype(n) != kinds[fname]:
+                raise Unsupported("member %s.%s has C++ type %s, table says %s" % (sname, fname, ctype(n), kinds[fname]), n)
+            return EVal(ENC_PROJ[sname][fname].format(holder), kinds[fname])
+        raise Unsupported("lvalue " + str(k), n)
+
+    # ---- expressions (pure)
+    def as_val(self, v):
+        if v.kind == "i64":
+            return EVal("(Prim.s64 %s)" % v.term, "i64v")
+        if v.kind == "i32":
+            return EVal("(Prim.s32 %s)" % v.term, "i32v")
+        return v
+
+    def cast(self, v, dt, node):
+        """C++ integral conversion of `v` to the scalar type `dt` (u8 i32 i64 u64 bool)."""
+        if v.kind == dt or (v.kind, dt) in (("i64v", "i64"), ("i32v", "i32")):
+            return v if v.kind != dt else v
+        v = self.as_val(v)
+        sk = v.kind
+        if dt == "u64":
+            if sk in ("i64v", "i32v"):
+                return EVal("(Cxx.u64OfInt %s)" % v.term, "u64")
+            if sk in ("u8", "char"):
+                return EVal("%s.toNat" % v.term, "u64")
+        if dt == "i64":
+            if sk == "u64":
+                return EVal("(Cxx.i64OfU64 %s)" % v.term, "i64v")
+            if sk == "i32v":
+                return EVal(v.term, "i64v")
+            if sk in ("u8", "char"):
+                return EVal("(%s.toNat : Int)" % v.term, "i64v")
+            if sk == "i64v":
+                return v
+        if dt == "i32":
+            if sk in ("u8",):
+                return EVal("(%s.toNat : Int)" % v.term, "i32v")
+            if sk == "i32v":
+                return v
+        if dt == "u8":
+            if sk == "u64":
+                return EVal("(UInt8.ofNat %s)" % v.term, "u8")
+            if sk == "char":
+                return EVal(v.term, "u8")
+            if sk == "bool":
+                return EVal("(if %s then (1 : UInt8) else 0)" % v.term, "u8")
+        raise Unsupported("conversion %s -> %s" % (sk, dt), node)
+
+    def expr(self, n):
+        n = unwrap(n)
+        k = n.get("kind")
+        lit = int_literal(n)
+        t = ctype(n)
+        if lit is not None and t in ("i32", "i64", "u64"):
+            return EVal("(%d : %s)" % (lit, "Nat" if t == "u64" else "Int"), {"i32": "i32v", "i64": "i64v", "u64": "u64"}[t])
+        if k == "InitListExpr" and len(kids(n)) == 1 and t in ("i32", "i64", "u64"):
+            return self.cast(self.expr(kids(n)[0]), t, n)
+        if k in ("ImplicitCastExpr", "CXXStaticCastExpr", "CStyleCastExpr", "CXXFunctionalCastExpr"):
+            ck = n.get("castKind")
+            sub = kids(n)[0]
+            if ck == "LValueToRValue":
+                v = self.lv(sub)
+                if v.kind.startswith(("struct:", "vec:")) or v.kind in ("string", "bytes"):
+                    raise Unsupported("rvalue of a " + v.kind, n)
+                return v
+            if ck == "NoOp":
+                return self.expr(sub)
+            if ck == "IntegralCast":
+                return self.cast(self.expr(sub), t, n)
+            raise Unsupported("cast " + str(ck), n)
+        if k == "DeclRefExpr" or k == "MemberExpr":
+            return self.lv(n)
+        if k == "CXXMemberCallExpr":
+            m = unwrap(kids(n)[0])
+            if m.get("name") in ("size", "length") and len(kids(n)) == 1 and t == "u64":
+                obj = unwrap(kids(m)[0])
+                if obj.get("kind") == "DeclRefExpr" and obj["referencedDecl"]["name"] == self.buf:
+                    return EVal(self.size, "u64")
+                v = self.lv(obj)
+                if v.kind.startswith("vec:") or v.kind in ("string", "bytes"):
+                    return EVal("(List.length %s)" % v.term, "u64")
+            raise Unsupported("member call " + str(m.get("name")), n)
+        if k == "BinaryOperator":
+            op = n["opcode"]
+            a, b = [self.as_val(self.expr(x)) for x in kids(n)]
+            if a.kind != b.kind:
+                raise Unsupported("operands of %s have kinds %s, %s" % (op, a.kind, b.kind), n)
+            if op in ("<", ">", "<=", ">=", "==", "!=") and a.kind in ("u64", "i64v", "i32v"):
+                lop = {"<": "<", ">": ">", "<=": "≤", ">=": "≥", "==": "=", "!=": "≠"}[op]
+                return EVal("(decide (%s %s %s))" % (a.term, lop, b.term), "bool")
+            if op in ("+", "-", "*") and a.kind == "u64":
+                f = {"+": "add", "-": "sub", "*": "mul"}[op]
+                return EVal("(Cxx.U64.%s %s %s)" % (f, a.term, b.term), "u64")
+            raise Unsupported("operator %s on %s" % (op, a.kind), n)
+        if k == "CallExpr" and callee_name(n) == "accumulate":
+            return self.accumulate(n)
+        raise Unsupported("expression " + str(k), n)
+
+    def accumulate(self, n):
+        """std::accumulate(V.begin(), V.end(), T{0}, [](T x, const E& e) { return <expr>; })"""
+        args = kids(n)[1:]
+        if len(args) != 4:
+            raise Unsupported("accumulate arity", n)
+
+        def rng(a, which):
+            a = unwrap(a)
+            if a.get("kind") != "CXXMemberCallExpr" or len(kids(a)) != 1:
+                raise Unsupported("accumulate range", a)
+            m = unwrap(kids(a)[0])
+            if m.get("name") != which:
+                raise Unsupported("accumulate range", a)
+            return self.lv(kids(m)[0])
+        v1, v2 = rng(args[0], "begin"), rng(args[1], "end")
+        if v1.term != v2.term or not v1.kind.startswith("vec:"):
+            raise Unsupported("accumulate over something other than one vector", n)
+        acc_t = ctype(n)
+        if acc_t not in ("i64", "u64"):
+            raise Unsupported("accumulator type " + acc_t, n)
+        init = self.cast(self.expr(args[2]), acc_t, n)
+        lam = unwrap(args[3])
+        if lam.get("kind") != "LambdaExpr":
+            raise Unsupported("accumulate operation is not a lambda", lam)
+        rec = [c for c in kids(lam) if c.get("kind") == "CXXRecordDecl"][0]
+        call = [c for c in kids(rec) if c.get("kind") == "CXXMethodDecl" and c.get("name") == "operator()"][0]
+        ps = [c for c in kids(call) if c.get("kind") == "ParmVarDecl"]
+        body = [c for c in kids(call) if c.get("kind") == "CompoundStmt"][0]
+        if len(ps) != 2 or ctype(ps[0]) != acc_t:
+            raise Unsupported("lambda parameters", lam)
+        ety = ctype(ps[1])
+        elem = "struct:" + v1.kind[4:]
+        m = re.fullmatch(r"\?std::optional<(?:djinterop::engine::v2::)?(\w+)>", ety)
+        engaged_opt = False
+        if m and "struct:" + m.group(1) == elem:
+            engaged_opt = True     # optional<E> constructed from an E: always engaged
+        elif ety != elem:
+            raise Unsupported("lambda element parameter of type " + ety, lam)
+        st = [c for c in kids(body) if not Dec(None).is_noop(c)]
+        if len(st) != 1 or st[0].get("kind") != "ReturnStmt":
+            raise Unsupported("lambda body is not a single return", body)
+        saved = dict(self.locals)
+        xn, en = lean_ident(ps[0]["name"]), lean_ident(ps[1]["name"])
+        self.locals[ps[0]["name"]] = EVal(xn, "i64v" if acc_t == "i64" else "u64")
+        self.locals[ps[1]["name"]] = EVal(en, elem)
+        self.engaged = {ps[1]["name"]} if engaged_opt else set()
+        try:
+            rty = norm_type(call["type"]["qualType"].split("(")[0])
+            r = self.cast(self.opt_expr(kids(st[0])[0]), ctype(rty), st[0])
+            r = self.cast(r, acc_t, st[0])
+        finally:
+            self.locals = saved
+            self.engaged = set()
+        lt = "Int" if acc_t == "i64" else "Nat"
+        return EVal("(List.foldl (fun (%s : %s) (%s : %s) => %s) %s %s)" %
+                    (xn, lt, en, enc_ty(elem[7:]), r.term, init.term, v1.term), "i64v" if acc_t == "i64" else "u64")
+
+    def opt_expr(self, n):
+        """expr, plus `opt ? a : b` / `opt->m` for a lambda parameter that is an always-engaged optional"""
+        u = unwrap(n)
+        if u.get("kind") == "BinaryOperator":
+            a, b = kids(u)
+            sa, sb = self.as_val(self.opt_expr(a)), self.as_val(self.opt_expr(b))
+            if u["opcode"] == "+" and sa.kind == sb.kind == "u64":
+                return EVal("(Cxx.U64.add %s %s)" % (sa.term, sb.term), "u64")
+            raise Unsupported("operator in lambda", u)
+        if u.get("kind") in ("ImplicitCastExpr", "CXXStaticCastExpr") and u.get("castKind") == "IntegralCast":
+            return self.cast(self.opt_expr(kids(u)[0]), ctype(u), u)
+        if u.get("kind") == "ConditionalOperator" and getattr(self, "engaged", None):
+            c, a, b = kids(u)
+            if self.is_engaged_test(c):
+                return self.opt_expr(a)
+            raise Unsupported("conditional in lambda", u)
+        if u.get("kind") == "CXXMemberCallExpr" and getattr(self, "engaged", None):
+            m = unwrap(kids(u)[0])
+            if m.get("name") in ("length", "size") and len(kids(u)) == 1:
+                obj = unwrap(kids(m)[0])
+                if obj.get("kind") == "MemberExpr" and obj.get("isArrow"):
+                    base = unwrap(kids(obj)[0])
+                    if base.get("kind") == "CXXOperatorCallExpr" and callee_name(base) == "operator->":
+                        tgt = unwrap(kids(base)[1])
+                        if tgt.get("kind") == "DeclRefExpr" and tgt["referencedDecl"]["name"] in self.engaged:
+                            e = self.locals[tgt["referencedDecl"]["name"]]
+                            sname = e.kind[7:]
+                            f = obj.get("name")
+                            kinds = dict(STRUCTS[sname]["fields"])
+                            if f in kinds and kinds[f] in ("string", "bytes") and ctype(obj) == kinds[f]:
+                                return EVal("(List.length %s)" % ENC_PROJ[sname][f].format(e.term), "u64")
+            raise Unsupported("member call in lambda", u)
+        return self.expr(n)
+
+    def is_engaged_test(self, c):
+        c = unwrap(c)
+        if c.get("kind") == "ImplicitCastExpr" and c.get("castKind") == "UserDefinedConversion":
+            c = unwrap(kids(c)[0])
+        if c.get("kind") == "CXXMemberCallExpr":
+            m = unwrap(kids(c)[0])
+            if "operator bool" in (m.get("name") or ""):
+                t = unwrap(kids(m)[0])
+                return t.get("kind") == "DeclRefExpr" and t["referencedDecl"]["name"] in self.engaged
+        return False
+
+    def to_bits(self, v, pt, node):
+        """Lean term of the bit pattern passed for a parameter of C type `pt`."""
+        if v.kind == pt and pt in ("u8", "i32", "i64", "f64"):
+            return v.term
+        if pt == "i64":
+            v = self.cast(v, "i64", node)
+            return "(Prim.u64OfInt %s)" % v.term if v.kind == "i64v" else v.term
+        if pt == "i32":
+            v = self.cast(v, "i32", node)
+            return "(Prim.u32OfInt %s)" % v.term if v.kind == "i32v" else v.term
+        if pt == "u8":
+            return self.cast(v, "u8", node).term
+        raise Unsupported("argument of kind %s for a %s parameter" % (v.kind, pt), node)
+
+    # ---- statements
+    def is_ptr(self, a):
+        a = unwrap(a)
+        if a.get("kind") == "ImplicitCastExpr" and a.get("castKind") == "LValueToRValue":
+            a = unwrap(kids(a)[0])
+        return a.get("kind") == "DeclRefExpr" and a["referencedDecl"]["name"] == self.ptr and self.ptr is not None
+
+    def stmts(self, body, out, top):
+        d = Dec(None)
+        body = [x for x in body if not d.is_noop(x)]
+        for i, raw in enumerate(body):
+            s = unwrap(raw)
+            k = s.get("kind")
+            last = i == len(body) - 1
+            if k == "DeclStmt":
+                for v in kids(s):
+                    self.var_decl(v, out)
+            elif k == "BinaryOperator" and s.get("opcode") == "=":
+                a, b = kids(s)
+                b = unwrap(b)
+                if not self.is_ptr(a) or b.get("kind") != "CallExpr":
+                    raise Unsupported("assignment other than ptr = encode_x(.., ptr)", s)
+                f = callee_name(b)
+                args = kids(b)[1:]
+                if len(args) != 2 or not self.is_ptr(args[1]):
+                    raise Unsupported("writer call whose last argument is not the cursor", b)
+                if f in PRIM_ENC:
+                    bits = self.to_bits(self.expr(args[0]), PRIM_ENC[f], b)
+                    out.append("Wr.put (%s%s %s)" % (PRIMS, f, bits))
+                elif f == "encode_extra":
+                    v = self.lv(args[0])
+                    if v.kind != "bytes":
+                        raise Unsupported("encode_extra of a " + v.kind, b)
+                    out.append("Wr.put %s" % v.term)
+                elif f in ENC_HELPERS:
+                    v = self.lv(args[0])
+                    if v.kind != ENC_HELPERS[f]["arg"]:
+                        raise Unsupported("%s of a %s" % (f, v.kind), b)
+                    out.append("%s %s" % (ENC_HELPERS[f]["lean"], v.term))
+                else:
+                    raise Unsupported("call " + str(f), b)
+            elif k == "CXXForRangeStmt":
+                self.range_for(s, out)
+            elif k == "IfStmt":
+                parts = kids(s)
+                if s.get("hasElse") or len(parts) != 2:
+                    raise Unsupported("if with else", s)
+                exn = d.throw_class(parts[1])
+                if not exn:
+                    raise Unsupported("if without throw", s)
+                c = self.expr(parts[0])
+                if c.kind != "bool":
+                    raise Unsupported("condition of kind " + c.kind, s)
+                out.append("if %s then Wr.throwW %s else" % (c.term, exn))
+            elif k == "ReturnStmt":
+                if not (top and last):
+                    raise Unsupported("return before the end", s)
+                return s
+            else:
+                raise Unsupported(str(k), s)
+        return None
+
+    def var_decl(self, v, out):
+        name = v["name"]
+        init = [c for c in kids(v) if not c.get("kind", "").endswith("Attr")]
+        ty = ctype(v)
+        if not init:
+            raise Unsupported("uninitialised local " + name, v)
+        e = unwrap(init[-1])
+        k = e.get("kind")
+        if k == "CXXConstructExpr" and ty == "bytes" and self.buf is None and self.fn["mode"] == "to_blob":
+            a = [c for c in kids(e) if c.get("kind") != "CXXDefaultArgExpr"]
+            if len(a) != 1:
+                raise Unsupported("buffer constructor", v)
+            sz = self.expr(a[0])
+            if sz.kind != "u64":
+                raise Unsupported("buffer size of kind " + sz.kind, v)
+            self.buf, self.size = name, lean_ident(name + "_size")
+            self.size_term = sz.term
+            return
+        if k == "CXXMemberCallExpr" and ty == "ptr" and self.ptr is None:
+            m = unwrap(kids(e)[0])
+            obj = unwrap(kids(m)[0])
+            if m.get("name") == "data" and obj.get("kind") == "DeclRefExpr" and obj["referencedDecl"]["name"] == self.buf:
+                self.ptr = name
+                return
+            raise Unsupported("pointer initialiser", v)
+        if k == "BinaryOperator" and ty == "ptr" and self.end is None and self.ptr:
+            a, b = kids(e)
+            if self.is_ptr(a) and self.expr(b).term == self.size:
+                self.end = name
+                return
+            raise Unsupported("end-pointer initialiser", v)
+        if ty in ("i64", "u64", "i32"):
+            val = self.cast(self.expr(init[-1]), ty, v)
+            ln = lean_ident(name)
+            out.append("let %s := %s" % (ln, val.term))
+            self.locals[name] = EVal(ln, val.kind)
+            return
+        raise Unsupported("local of type " + ty, v)
+
+    def range_for(self, s, out):
+        parts = s.get("inner") or []
+        if len(parts) != 8 or (parts[0] and parts[0].get("kind")):
+            raise Unsupported("range-for shape", s)
+        rng, loopvar, body = parts[1], parts[6], parts[7]
+        coll = self.lv(kids(kids(rng)[0])[0])
+        lv = kids(loopvar)[0]
+        if coll.kind.startswith("vec:"):
+            ek, lt = "struct:" + coll.kind[4:], enc_ty(coll.kind[4:])
+            if ctype(lv) != ek:
+                raise Unsupported("range-for element type", lv)
+        elif coll.kind == "string":
+            ek, lt = "char", "UInt8"
+            if ctype(lv) != "char":
+                raise Unsupported("range-for element type", lv)
+        else:
+            raise Unsupported("range-for over a " + coll.kind, s)
+        name = lv["name"]
+        if name in self.locals:
+            raise Unsupported("range-for variable shadows a local", lv)
+        ln = lean_ident(name)
+        self.locals[name] = EVal(ln, ek)
+        sub = []
+        self.stmts(kids(body) if body.get("kind") == "CompoundStmt" else [body], sub, False)
+        del self.locals[name]
+        if not sub:
+            raise Unsupported("empty loop body", body)
+        # a body that mentions nothing but its own element becomes a definition of its own
+        outer = {v.term for v in self.locals.values()} | {"v", "extra", self.size or ""}
+        toks = set(re.findall(r"[A-Za-z_][A-Za-z_0-9']*", " ".join(sub)))
+        if not (outer & toks):
+            bname = "%s_body%d" % (self.fn["lean"], len(self.aux) + 1)
+            self.aux.append((bname, ln, lt, sub))
+            out.append("Wr.forIn' %s %s" % (coll.term, bname))
+        else:
+            out.append("Wr.forIn' %s (fun (%s : %s) => do" % (coll.term, ln, lt))
+            out.extend("    " + l for l in sub)
+            out[-1] += ")"
+
+    def function(self, decl):
+        fn = self.fn
+        params = [p for p in kids(decl) if p.get("kind") == "ParmVarDecl"]
+        body = [c for c in kids(decl) if c.get("kind") == "CompoundStmt"][0]
+        out = []
+        if fn["mode"] == "to_blob":
+            if params:
+                raise Unsupported("to_blob signature", decl)
+            sd = STRUCTS[fn["struct"]]
+            self.this = (fn["struct"], "v", "extra")
+            ret = self.stmts(kids(body), out, True)
+            if ret is None or self.buf is None or self.ptr is None:
+                raise Unsupported("function shape", decl)
+            r = unwrap(kids(ret)[0])
+            while r.get("kind") == "CXXConstructExpr" and len(kids(r)) == 1:
+                r = unwrap(kids(r)[0])
+            if r.get("kind") == "CallExpr" and callee_name(r) == "zlib_compress":
+                r = unwrap(kids(r)[1])
+            if r.get("kind") != "DeclRefExpr" or r["referencedDecl"]["name"] != self.buf:
+                raise Unsupported("return of something other than the buffer", ret)
+            pre = [l for l in out if l.startswith("let ")]
+            # locals that the size expression needs are pure lets: emit them before the allocation
+            head = ["def %s (v : %s) (extra : Bytes) : Res Bytes :=" % (fn["lean"], sd["ty"])]
+            lets, rest, seen_put = [], [], False
+            for l in out:
+                (rest if (seen_put or not l.startswith("let ")) else lets).append(l)
+                seen_put = seen_put or not l.startswith("let ")
+            head += ["  " + l for l in lets]
+            head.append("  Wr.run %s (do" % self.size_term)
+            rest = rest or ["pure ()"]
+            lines = head + ["    " + l for l in rest]
+            lines[-1] += ")"
+            return self.aux_defs() + lines
+        # helper: std::byte* f(const std::vector<E>& xs, std::byte* ptr) { ...; return ptr; }
+        if len(params) != 2 or ctype(params[0]) != fn["arg"] or ctype(params[1]) != "ptr":
+            raise Unsupported("helper signature", decl)
+        xs = lean_ident(params[0]["name"])
+        self.locals[params[0]["name"]] = EVal(xs, fn["arg"])
+        self.ptr = params[1]["name"]
+        ret = self.stmts(kids(body), out, True)
+        if ret is None or not self.is_ptr(kids(ret)[0]):
+            raise Unsupported("helper does not return the cursor", decl)
+        lines = ["def %s (%s : List %s) : Wr Unit := (do" % (fn["lean"], xs, enc_ty(fn["arg"][4:]))]
+        lines += ["  " + l for l in out]
+        lines[-1] += ")"
+        return self.aux_defs() + lines
+
+    def aux_defs(self):
+        res = []
+        for bname, ln, lt, sub in self.aux:
+            res += ["def %s (%s : %s) : Wr Unit := (do" % (bname, ln, lt)] + ["  " + l for l in sub]
+            res[-1] += ")"
+            res.append("")
+        return res
+
+
 def refers_to(n, name):
     if isinstance(n, dict):
         if n.get("kind") == "DeclRefExpr" and n.get("referencedDecl", {}).get("name") == name:
@@ -1019,6 +1521,8 @@ def translate_one(fn):
             defs.append(d)
     if len(defs) != 1:
         raise Unsupported("definition of %s not found (%d candidates)" % (fn["filt"], len(defs)), where=rel)
+    if fn["mode"] in ("to_blob", "enc_helper"):
+        return Enc(dict(fn)).function(defs[0])
     return Dec(dict(fn)).function(defs[0])
 
 
@@ -1026,6 +1530,7 @@ HEADER = """/- GENERATED by tools/tr_blobs.py from src/djinterop/engine/v2/*_blo
    One block per translated C++ function; a function outside the translator's fragment keeps
    its previous block (see the translator's status line in the evidence). -/
 import EngineModel.Impl.CursorCxx
+import EngineModel.Impl.CxxPrims
 import EngineModel.Format.V2
 
 namespace EngineModel.Gen.ImplV2
